@@ -51,6 +51,7 @@ type flowResult struct {
 	sched    string
 	partial  bool
 	crashed  bool // the first run was interrupted at the requested point
+	unzipped int  // metadata files restored from the --zip archive for the monitors
 	vdr      vmon.VdrStats
 }
 
@@ -156,6 +157,9 @@ func runFlowCase(c *vf.Ctx, fc *flowCase) *flowResult {
 	}
 	args := []string{"--vdrmode=" + fc.Vdr, fmt.Sprintf("--localcores=%d", cores), "--localmem=16", fmt.Sprintf("--autoretry=%d", fc.AutoRetry)}
 	args = append(args, fc.ExtraArg...)
+	if v := os.Getenv("VERIF_EXTRA_ARGS"); v != "" {
+		args = append(args, strings.Fields(v)...) // triage override
+	}
 	if fc.Crash != "" {
 		// interrupted first run, then a restart on the same directory
 		r1 := cs.Run(vrun.RunOpts{Race: fc.Race, Args: args, Seed: fc.Seed, Delays: fc.Delays, Inventory: true,
@@ -195,9 +199,15 @@ func runFlowCase(c *vf.Ctx, fc *flowCase) *flowResult {
 		res.model, res.report = vmon.Analyze(res.obs, p)
 		return res
 	}
+	nz, zerr := cs.UnzipMetadata() // --zip runs: the monitors read the archived metadata
+	res.unzipped = nz
 	res.obs = vmon.Collect(cs, vmon.StageCallPaths(p))
 	if res.run.Exit == 0 {
 		res.model, res.report = vmon.Analyze(res.obs, p)
+		if zerr != nil {
+			res.report.Findings = append(res.report.Findings, vmon.Finding{Prop: "C13", Sig: "metadata-archive-unreadable",
+				What: "the metadata archive written on completion (--zip) cannot be read back: " + zerr.Error()})
+		}
 		vmon.CheckTopOuts(res.obs, p, res.model, res.report)
 		vmon.CheckOutsDir(res.obs, p, res.model, res.report)
 		if fc.Vdr != "disable" {
@@ -217,6 +227,10 @@ func runFlowCase(c *vf.Ctx, fc *flowCase) *flowResult {
 			rep2.Findings = append(rep2.Findings, vmon.Finding{Prop: "C13", Sig: "reattach-to-completed-failed",
 				What: fmt.Sprintf("mrp run again on the completed pipestance exited %d: %s", r2.Exit, tail(r2.Output, 500))})
 		} else {
+			if _, err := cs.UnzipMetadata(); err != nil {
+				rep2.Findings = append(rep2.Findings, vmon.Finding{Prop: "C13", Sig: "metadata-archive-unreadable",
+					What: "the metadata archive written on completion (--zip) cannot be read back: " + err.Error()})
+			}
 			vmon.CheckOutsDir(res.obs, p, res.model, rep2)
 		}
 		for _, f := range rep2.Findings {
